@@ -14,12 +14,24 @@ impl<T> OwnView for MpscSender<T> { open spec fn own(&self) -> Own { Own { none:
 impl<T> OwnView for MpscReceiver<T> { open spec fn own(&self) -> Own { own_none() } }
 impl<T> MpscSender<T> {
     pub uninterp spec fn q(&self) -> int;
-    #[verifier::external_body] pub fn clone(&self) -> (r: Self) ensures r.q() == self.q() { unimplemented!() }
+    // a sender that has not sent anything yet (every clone starts like that): the channel keeps a slot of its own for each sender, so a
+    // fresh one is never refused for lack of space (futures-channel: `maybe_parked` is false on a new clone); a sender that has sent
+    // before may be parked, and `start_send` / `try_send` on a parked sender fail with `Full`
+    pub uninterp spec fn fresh(&self) -> bool;
+    #[verifier::external_body] pub fn clone(&self) -> (r: Self) ensures r.q() == self.q(), r.fresh() { unimplemented!() }
     #[verifier::external_body] pub fn len(&self) -> (r: usize) { unimplemented!() }
-    // the non-waiting operation: enqueue now or fail because the receiver is gone
+    #[verifier::external_body] pub fn is_closed(&self) -> (r: bool) { unimplemented!() }
+    // the non-waiting operation: enqueue now or fail; on a fresh sender it fails only because the receiver is gone
     #[verifier::external_body]
     pub fn start_send(&mut self, msg: T, Tracked(w): Tracked<&mut World>) -> (r: Result<(), SendError>)
-        ensures final(self).q() == old(self).q(), submit_post(old(self).q(), pid_of(&msg), true, old(w), final(w), r is Ok)
+        ensures final(self).q() == old(self).q(), submit_try_post(old(self).q(), pid_of(&msg), true, old(w), final(w), r is Ok),
+            old(self).fresh() && r is Err ==> final(w).closed.contains(old(self).q()),
+    { unimplemented!() }
+    // Sender::try_send: the same operation, handing the message back on failure
+    #[verifier::external_body]
+    pub fn try_send(&mut self, msg: T, Tracked(w): Tracked<&mut World>) -> (r: Result<(), TrySendError<T>>)
+        ensures final(self).q() == old(self).q(), submit_try_post(old(self).q(), pid_of(&msg), true, old(w), final(w), r is Ok),
+            old(self).fresh() && r is Err ==> final(w).closed.contains(old(self).q()),
     { unimplemented!() }
     // UnboundedSender::unbounded_send: enqueue now or fail because the receiver is gone
     #[verifier::external_body]
@@ -37,13 +49,18 @@ impl<T> MpscSender<T> {
         ensures final(self).q() == old(self).q(), submit_post(old(self).q(), pid_of(&msg), false, old(w), final(w), r is Ok)
     { unimplemented!() }
 }
-// what a submission does: others may have run before and (waiting path) after it; Ok means exactly one enqueue of this payload on this
-// queue happened between call and return; Err means nothing was enqueued; a queue known to be closed refuses
-pub open spec fn submit_post(q: int, pid: int, force: bool, pre: &World, post: &World, ok: bool) -> bool {
+// what one attempt to submit does: others may have run before and (waiting path) after it; Ok means exactly one enqueue of this payload on
+// this queue happened between call and return; Err means nothing was enqueued; a queue known to be closed refuses
+pub open spec fn submit_try_post(q: int, pid: int, force: bool, pre: &World, post: &World, ok: bool) -> bool {
     &&& post.lc == pre.lc && post.cells =~= pre.cells && post.last_pid == pre.last_pid && post.last_slot == pre.last_slot && shared_moved(sh(pre), sh(post))
     &&& (ok ==> post.trace == pre.trace.push(Ev::Enq { chan: q, pid: pid, force: force }))
     &&& (!ok ==> post.trace == pre.trace)
     &&& (pre.closed.contains(q) ==> !ok)
+}
+// a submission proper: in addition it is refused only by a mailbox whose receiver is gone (never for lack of space)
+pub open spec fn submit_post(q: int, pid: int, force: bool, pre: &World, post: &World, ok: bool) -> bool {
+    &&& submit_try_post(q, pid, force, pre, post, ok)
+    &&& (!ok ==> post.closed.contains(q))
 }
 impl<T> MpscReceiver<T> {
     pub uninterp spec fn q(&self) -> int;
